@@ -5,3 +5,4 @@ import Core.Chain
 import Core.Pool
 import Core.Sync
 import Core.Spec
+import Core.Machine
